@@ -4,6 +4,8 @@
 # http://docs.glueviz.org/en/stable/developer_guide/data.html and transparently
 # applying changes.
 
+import numpy as np
+
 from glue.core.hub import HubListener
 from glue.core.data import BaseCartesianData
 from glue.core.message import NumericalDataChangedMessage
@@ -136,8 +138,12 @@ class IndexedData(BaseCartesianData, HubListener):
         return self._original_data.get_kind(cid)
 
     def _to_original_view(self, view):
-        if view is None:
-            view = [slice(None)] * self.ndim
+        # Normalize the view to one entry per dimension of this dataset
+        if view is None or view is Ellipsis:
+            view = []
+        elif not isinstance(view, (tuple, list)):
+            view = [view]
+        view = list(view) + [slice(None)] * (self.ndim - len(view))
         original_view = list(self.indices)
         idim_reduced = 0
         for idim in range(self._original_data.ndim):
@@ -168,12 +174,22 @@ class IndexedData(BaseCartesianData, HubListener):
             cid = self._cid_to_original_cid[cid]
         return cid
 
+    @staticmethod
+    def _has_index_array(view):
+        return (isinstance(view, np.ndarray) or
+                (isinstance(view, (tuple, list)) and any(isinstance(v, np.ndarray) for v in view)))
+
     def get_data(self, cid, view=None):
         cid = self._translate_cid(cid)
+        if self._has_index_array(view):
+            # Index arrays and masks refer to the reduced array as a whole
+            return self._original_data.get_data(cid, view=self._to_original_view(None))[view]
         original_view = self._to_original_view(view)
         return self._original_data.get_data(cid, view=original_view)
 
     def get_mask(self, subset_state, view=None):
+        if self._has_index_array(view):
+            return self._original_data.get_mask(subset_state, view=self._to_original_view(None))[view]
         original_view = self._to_original_view(view)
         return self._original_data.get_mask(subset_state, view=original_view)
 
